@@ -52,6 +52,18 @@ def slice_topk(ctx, rng, n_cases):
         par = Population(rng.normal(size=(n, d)), rand_fit(rng, n, ties), prob)
         off = Population(rng.normal(size=(n, d)), rand_fit(rng, n, ties), prob)
         k = int(rng.integers(1, n + 1))
+        if rng.random() < 0.35:
+            # a converged deme: every offspring is a tiny step away from an elite parent (far from the origin, so
+            # that the step is also tiny relative to the coordinates) and none of them is better than the elites
+            shift = float(rng.choice([0.0, 150.0, -3000.0]))
+            par.genomes = par.genomes + shift
+            order = np.argsort(par.fitnesses)
+            best = order[-1] if mx else order[0]
+            worst_ok = float(np.max(par.fitnesses[np.isfinite(par.fitnesses)], initial=0.0)) if not mx else float(np.min(par.fitnesses[np.isfinite(par.fitnesses)], initial=0.0))
+            step = float(rng.choice([1e-12, 1e-9, 1e-7]))
+            off.genomes = par.genomes[rng.integers(0, n, n)] + step * rng.normal(size=(n, d))
+            off.genomes[0] = par.genomes[best] + step * np.ones(d)
+            off.fitnesses = np.full(n, worst_ok) + (-1.0 if mx else 1.0) * (1.0 + rng.integers(0, 3, n).astype(float))
         top = par.topk(k)
         sea = SEA.create(problem=prob, k_elites=k)
         out = sea.select_new_population(par, off)
